@@ -145,12 +145,21 @@ impl Controller {
     }
 }
 
+/// the client's read timeout in runs with a slow NOOP
+pub const SLOW_CLIENT_TIMEOUT_MS: u64 = 300;
+
 #[derive(Clone, Copy, Default)]
 struct Fault {
     /// close the socket after this many commits (0 = right after the EHLO reply)
     drop_after: Option<usize>,
     /// reject the recipient of this transaction (1-based)
     reject_rcpt: Option<usize>,
+    /// answer the recipient of this transaction with 450
+    temp_rcpt: Option<usize>,
+    /// answer this NOOP (1-based) with 421 and close
+    noop_421: Option<usize>,
+    /// answer this NOOP only after 1.5 x the client's read timeout
+    slow_noop: Option<usize>,
 }
 
 fn parse_faults(s: &str) -> Option<HashMap<usize, Fault>> {
@@ -166,6 +175,9 @@ fn parse_faults(s: &str) -> Option<HashMap<usize, Fault>> {
         match k {
             "d" => e.drop_after = Some(n),
             "r" => e.reject_rcpt = Some(n),
+            "t" => e.temp_rcpt = Some(n),
+            "x" => e.noop_421 = Some(n),
+            "s" => e.slow_noop = Some(n),
             _ => return None,
         }
     }
@@ -226,6 +238,7 @@ fn serve_conn(s: std::net::TcpStream, fault: Fault, cid: usize, log: ServerLog) 
     }
     let mut commits = 0usize;
     let mut txn = 0usize;
+    let mut noops = 0usize;
     let mut data = false;
     let mut content = String::new();
     loop {
@@ -266,6 +279,16 @@ fn serve_conn(s: std::net::TcpStream, fault: Fault, cid: usize, log: ServerLog) 
             }
         } else if up.starts_with("NOOP") {
             push("N".into());
+            noops += 1;
+            if fault.noop_421 == Some(noops) {
+                let _ = w.write_all(b"421 closing connection\r\n");
+                push("K".into());
+                let _ = w.shutdown(std::net::Shutdown::Both);
+                break;
+            }
+            if fault.slow_noop == Some(noops) {
+                std::thread::sleep(Duration::from_millis(SLOW_CLIENT_TIMEOUT_MS * 3 / 2));
+            }
             let _ = w.write_all(b"250 ok\r\n");
         } else if let Some(rest) = up.strip_prefix("MAIL FROM:<") {
             txn += 1;
@@ -275,6 +298,9 @@ fn serve_conn(s: std::net::TcpStream, fault: Fault, cid: usize, log: ServerLog) 
             if fault.reject_rcpt == Some(txn) {
                 push("Rx".into());
                 let _ = w.write_all(b"550 no such user\r\n");
+            } else if fault.temp_rcpt == Some(txn) {
+                push("Rt".into());
+                let _ = w.write_all(b"450 mailbox busy\r\n");
             } else {
                 push("R".into());
                 let _ = w.write_all(b"250 ok\r\n");
@@ -358,6 +384,7 @@ fn idle_of(dbg: &str) -> String {
 }
 
 struct Plan {
+    timeout_ms: u64,
     max_size: u32,
     min_idle: u32,
     idle_ms: u64,
@@ -418,6 +445,7 @@ fn drive(ctl: &Controller, plan: &Plan) -> bool {
 pub fn sched(args: &[&str]) -> Option<Vec<String>> {
     let [kind, max_size, min_idle, idle_ms, senders, sends, faults, schedule] = args else { return None };
     let plan = Plan {
+        timeout_ms: if faults.contains(":s") { SLOW_CLIENT_TIMEOUT_MS } else { 5000 },
         max_size: max_size.parse().ok()?,
         min_idle: min_idle.parse().ok()?,
         idle_ms: idle_ms.parse().ok()?,
@@ -448,7 +476,7 @@ pub fn sched(args: &[&str]) -> Option<Vec<String>> {
     lettre::verif_hooks::set_callback(None);
     // all sockets closed? give the peer a moment to see the EOFs
     let t0 = Instant::now();
-    while active.load(Ordering::SeqCst) > 0 && t0.elapsed() < Duration::from_millis(1500) {
+    while active.load(Ordering::SeqCst) > 0 && t0.elapsed() < Duration::from_millis(8000) {
         std::thread::sleep(Duration::from_millis(2));
     }
     let open_left = active.load(Ordering::SeqCst);
@@ -467,13 +495,13 @@ pub fn sched(args: &[&str]) -> Option<Vec<String>> {
     ])
 }
 
-pub type PlanTuple = (u32, u32, u64, usize, usize, Vec<String>);
+pub type PlanTuple = (u32, u32, u64, usize, usize, Vec<String>, u64);
 fn plan_tuple(p: &Plan) -> PlanTuple {
-    (p.max_size, p.min_idle, p.idle_ms, p.senders, p.sends, p.schedule.clone())
+    (p.max_size, p.min_idle, p.idle_ms, p.senders, p.sends, p.schedule.clone(), p.timeout_ms)
 }
 
 pub fn drive_tuple(ctl: &Controller, p: &PlanTuple) -> bool {
-    drive(ctl, &Plan { max_size: p.0, min_idle: p.1, idle_ms: p.2, senders: p.3, sends: p.4, schedule: p.5.clone() })
+    drive(ctl, &Plan { timeout_ms: p.6, max_size: p.0, min_idle: p.1, idle_ms: p.2, senders: p.3, sends: p.4, schedule: p.5.clone() })
 }
 
 pub fn ctl_close(ctl: &Controller) {
@@ -501,7 +529,7 @@ fn run_sync(ctl: &Arc<Controller>, plan: &Plan, port: u16) -> Option<(String, St
     ctl.register("m");
     let t = SmtpTransport::builder_dangerous("127.0.0.1")
         .port(port)
-        .timeout(Some(Duration::from_secs(5)))
+        .timeout(Some(Duration::from_millis(plan.timeout_ms)))
         .pool_config(PoolConfig::new().max_size(plan.max_size).min_idle(plan.min_idle).idle_timeout(Duration::from_millis(plan.idle_ms)))
         .build();
     let results: Arc<Mutex<HashMap<String, Vec<String>>>> = Arc::new(Mutex::new(HashMap::new()));
@@ -552,7 +580,7 @@ fn run_sync(ctl: &Arc<Controller>, plan: &Plan, port: u16) -> Option<(String, St
     ctl_close(ctl);
     drop(t);
     let t0 = Instant::now();
-    while pool_threads() > base_threads && t0.elapsed() < Duration::from_millis(1500) {
+    while pool_threads() > base_threads && t0.elapsed() < Duration::from_millis(8000) {
         std::thread::sleep(Duration::from_millis(2));
     }
     let res = results.lock().unwrap();
